@@ -102,7 +102,23 @@ fn bb_strategy() -> impl Strategy<Value = BbCase> {
 			steps.extend(order.into_iter().map(Step::Renew));
 			BbCase { n_endpoints: n, key0: k1.clone(), steps, host_alias }
 		});
-		prop_oneof![1 => free, 1 => shaped]
+		// interrupted shape: every endpoint registered, key and contacts edited together (or one after the other), a fault at one of the
+		// account requests of endpoint e with the daemon stopped right after the failed attempt, then endpoint e first, then the others
+		let k2 = key0.clone();
+		let interrupted = (contacts(), fast_key(), 0..n, prop_oneof![3 => Just("account-update"), 1 => Just("key-change"), 1 => Just("new-order")], any::<bool>()).prop_map(move |(c, k, e, which, both)| {
+			let mut steps: Vec<Step> = (0..n).map(Step::Renew).collect();
+			if both {
+				steps.push(Step::ChangeBoth(c, k));
+			} else {
+				steps.push(Step::ChangeKey(k));
+				steps.push(Step::EditContacts(c));
+			}
+			steps.push(Step::FaultRestart(e, which.to_string()));
+			steps.push(Step::Renew(e));
+			steps.extend((0..n).filter(|x| *x != e).map(Step::Renew));
+			BbCase { n_endpoints: n, key0: k2.clone(), steps, host_alias }
+		});
+		prop_oneof![3 => free, 3 => shaped, 2 => interrupted]
 	})
 }
 
